@@ -67,6 +67,7 @@ struct vk_hooks {
 	void (*io_pre)(int is_write, int fd, size_t n);
 	void (*io_post)(int is_write, int fd, ssize_t result);
 	void (*read_post)(int fd, void *buf, ssize_t result);   /* what a read() handed to its caller */
+	void (*close_failed)(int fd, int err);                  /* a close() call failed (EBADF: the descriptor was not open) */
 };
 
 extern struct vk_hooks vk_hooks;
@@ -82,7 +83,8 @@ unsigned long vk_sys_count(int sys);
 int64_t vk_tfd_deadline_any(void); /* earliest armed emulated timerfd deadline or VK_INF */
 int     vk_tfd_count(void);
 int     vk_is_tfd(int fd);
-static inline int64_t vk_ts_ns(const struct timespec *ts) { return (int64_t)ts->tv_sec * VK_NS + ts->tv_nsec; }
+/* saturating: relative timeouts of centuries (a timer parked in the far future) must not overflow the 64-bit nanosecond clock */
+static inline int64_t vk_ts_ns(const struct timespec *ts) { if (ts->tv_sec > 4000000000ll) return 4000000000ll * VK_NS; if (ts->tv_sec < -4000000000ll) return -4000000000ll * VK_NS; return (int64_t)ts->tv_sec * VK_NS + ts->tv_nsec; }
 static inline struct timespec vk_ns_ts(int64_t ns) { struct timespec t = { ns / VK_NS, ns % VK_NS }; return t; }
 
 /* real primitives for harness use */
